@@ -13,7 +13,7 @@ from vf.tlc import MachineryError
 META = {
     "engine": "data",
     "text": "Codec.tla is the decision table codec x frame kind {module one-shot (sized), streaming (size-less)} x level "
-            "class x length class (around the 64 KiB read chunk) x cap relation {none,0,len-1,len,len+1,large} -> "
+            "class x window class (zstd frame header window <= / > 8 MiB) x length class (around the 64 KiB read chunk) x cap relation {none,0,len-1,len,len+1,large} -> "
             "original | limit error; TLC enumerates all ~700 rows and checks table sanity (class oracle = numeric oracle, "
             "cap monotone, frame/level blind). Every row is concretised with several byte strings (every length 0..64, "
             "chunk boundaries, structured large inputs; zeros/random/Arrow-IPC content), every level of the class and "
@@ -127,6 +127,49 @@ def make_frame(codec: str, frame: str, variant: str, level, data: bytes) -> byte
                 s.write(data)
             return sink.getvalue().to_pybytes()
     raise MachineryError(f"no producer for {codec}/{frame}/{variant}")
+
+
+LARGE_WINDOW_STREAM = ["compressobj_wlog24", "stream_writer_wlog25", "compressobj_wlog27", "ldm_compressobj_wlog27", "ldm_stream_writer_wlog26"]
+WINDOW_8MIB = 1 << 23
+
+
+def large_window_frame(prod: str, data: bytes) -> bytes:
+    """A single zstd frame whose header advertises a window above 8 MiB.  The 'wlogNN' producers use explicit
+    compression parameters with that window and small match-finder tables (a genuine level-22 streaming compressor
+    allocates its full tables: seconds per frame), 'genuine_levelNN' are the real ultra levels through the streaming
+    API.  The frame's actual window is read back with zstandard.get_frame_parameters and asserted."""
+    import zstandard
+
+    if prod.startswith("genuine"):
+        lv = int(prod.split("level")[1][:2])
+        cctx = zstandard.ZstdCompressor(level=lv)
+    elif prod.startswith("oneshot"):
+        wl = int(prod.split("wlog")[1])
+        fb = zstandard.ZstdCompressor(compression_params=zstandard.ZstdCompressionParameters.from_level(1, window_log=wl)).compress(data)
+        cctx = None
+    else:
+        wl = int(prod.split("wlog")[1])
+        if prod.startswith("ldm"):
+            params = zstandard.ZstdCompressionParameters.from_level(3, window_log=wl, enable_ldm=True)
+        else:
+            params = zstandard.ZstdCompressionParameters(window_log=wl, chain_log=16, hash_log=17, search_log=1, min_match=4, target_length=0,
+                                                         strategy=zstandard.STRATEGY_FAST)
+        cctx = zstandard.ZstdCompressor(compression_params=params)
+    if cctx is not None:
+        if "stream_writer" in prod:
+            b = io.BytesIO()
+            with cctx.stream_writer(b, closefd=False) as w:
+                for i in range(0, len(data), 40000):
+                    w.write(data[i:i + 40000])
+            fb = b.getvalue()
+        else:
+            c = cctx.compressobj()
+            fb = b"".join(c.compress(data[i:i + 7919]) for i in range(0, len(data), 7919)) + c.flush()
+    fp = zstandard.get_frame_parameters(fb)
+    sized = fp.content_size not in (-1, 18446744073709551615)
+    if fp.window_size <= WINDOW_8MIB or sized != prod.startswith("oneshot"):
+        raise MachineryError(f"producer {prod} made a frame with window {fp.window_size}, content_size {fp.content_size}")
+    return fb
 
 
 def observe(codec: str, frame_bytes: bytes, data: bytes, cap: int) -> str:
@@ -252,9 +295,12 @@ def run(ctx: Ctx) -> None:
     # rows that differ only in the cap share the concrete inputs and the compressed frame
     groups: dict = {}
     other: dict = {}
+    wide: dict = {}
     for cj in cases:
         c = cj["case"]
-        if c["entry"] == "codec":
+        if c["entry"] == "codec" and c["window"] == "large":
+            wide.setdefault((c["codec"], c["frame"], c["level"], c["len"]), []).append(c)
+        elif c["entry"] == "codec":
             groups.setdefault((c["codec"], c["frame"], c["level"], c["len"]), []).append(c)
         else:
             other.setdefault((c["entry"], c["codec"], c["frame"], c["level"], c["len"]), []).append(c)
@@ -290,6 +336,30 @@ def run(ctx: Ctx) -> None:
                         fb = make_frame(codec, frame, v, lv, data)
                         for c in members:
                             add(c, codec, frame, v, lv, kind, n, data, c["cap"], fb=fb)
+    # ---- zstd frames whose header asks for a decoder window above 8 MiB (ultra levels 20-22 / long-distance matching
+    # for size-less streaming frames whatever the payload; a payload above 8 MiB for size-declaring frames)
+    genuine: dict = {}
+    for gi, ((codec, frame, lvclass, lenclass), members) in enumerate(sorted(wide.items())):
+        if frame == "stream":
+            ns = lens[lenclass][:1] if quick else lens[lenclass][:2]
+            producers = LARGE_WINDOW_STREAM if not quick else [LARGE_WINDOW_STREAM[gi % 3], LARGE_WINDOW_STREAM[3 + gi % 2]]
+            if not quick and lenclass in ("one", "small"):
+                producers = producers + ["genuine_level20_compressobj", "genuine_level22_stream_writer"]
+        else:
+            ns = [(1 << 23) + 4097] if quick else [(1 << 23) + 1, (1 << 23) + 4097]
+            producers = ["oneshot_wlog24"] if quick else ["oneshot_wlog24", "oneshot_wlog27"]
+        for li, n in enumerate(ns):
+            kind = "zeros" if n > (1 << 22) else kinds_q[(gi + li) % 3]
+            data = contents.get(kind, n)
+            for prod in producers:
+                key = (prod, kind, n)
+                fb = genuine.get(key) if prod.startswith("genuine") and kind != "random" else None
+                if fb is None:
+                    fb = large_window_frame(prod, data)
+                    if prod.startswith("genuine") and kind != "random":
+                        genuine[key] = fb
+                for c in members:
+                    add(c, codec, frame, prod, prod, kind, n, data, c["cap"], fb=fb)
     # ---- the other entry points (legacy aliases, Content-Encoding header, coding chains, server middleware frames,
     # state-token packing): same rows, reached through a different function
     for gi, ((entry, codec, frame, lvclass, lenclass), members) in enumerate(sorted(other.items())):
@@ -320,7 +390,7 @@ def run(ctx: Ctx) -> None:
                         ctx.case([entry, codec, label, lv, n, kind, cap])
     # ---- exhaustive single bytes (thorough) and hypothesis bulk inside the classes
     by_key = {(cj["case"]["codec"], cj["case"]["frame"], cj["case"]["level"], cj["case"]["len"], cj["case"]["cap"]): cj["case"]
-              for cj in cases if cj["case"]["entry"] == "codec"}
+              for cj in cases if cj["case"]["entry"] == "codec" and cj["case"]["window"] == "std"}
     if not quick:
         for b in range(256):
             data = bytes([b])
@@ -367,5 +437,5 @@ def run(ctx: Ctx) -> None:
         for cl in clauses:
             c = o["case"]
             ctx.violation(cl, {"entry": c["entry"], "codec": c["codec"], "frame": c["frame"], "variant": o["_c"]["variant"], "level_class": c["level"],
-                               "len_class": c["len"], "cap": c["cap"]},
+                               "len_class": c["len"], "cap": c["cap"], "window": c["window"]},
                           {"observed": o["obs"], "concrete": o["_c"]})
